@@ -87,3 +87,31 @@ def lru(names, cap):
     for n in names:
         m.entries.append([n if isinstance(n, Seq) else rstring(n), Cell(unit(), 'lruval')])
     return m
+
+
+def mk_client(ip, prog, write_stream=None, **over):
+    """client::Client<S, T> with concrete defaults (field layout from the source)."""
+    from mirsym.models.io import StreamV
+    vals = dict(
+        read=Opaque('BufReader', 'client_read'),
+        write=write_stream if write_stream is not None else StreamV([], 'client'),
+        buffer=Seq([], 'bytesmut'),
+        response_message_queue_buffer=Seq([], 'bytesmut'),
+        addr=Opaque('SocketAddr', 'addr'),
+        cancel_mode=BV(1, 0), transaction_mode=BV(1, 1),
+        process_id=BV(32, 7001), secret_key=BV(32, 7002),
+        client_server_map=Ptr(Cell(Agg([MapV('hashmap')], 'Lock'), 'csmap')),
+        parameters=MapV('hashmap'),
+        stats=Ptr(Cell(Opaque('ClientStats', 'stats'), 'cstats')),
+        admin=BV(1, 0),
+        last_address_id=none(ip), last_server_stats=none(ip),
+        connected_to_server=BV(1, 0),
+        pool_name=rstring('db'), username=rstring('u'),
+        server_parameters=mk_server_params(prog),
+        shutdown=Opaque('Receiver', 'shutdown'),
+        prepared_statements_enabled=BV(1, 0),
+        prepared_statements=MapV('hashmap'),
+        extended_protocol_data_buffer=Seq([], 'vecdeque'),
+    )
+    vals.update(over)
+    return mk_struct(prog, 'Client', **vals)
